@@ -436,10 +436,6 @@ func cellProgram(cell string, k exitKind, variant int) (string, bool) {
 		if k.target == nil {
 			return "", false
 		}
-		if cellByName[cell].needsBlk {
-			// the value form exits to a block inside the one returned from
-			return chainProgram([]string{cell, "block.body"}, k, 1)
-		}
 		return chainProgram([]string{cell, "let.body"}, k, 2)
 	}
 	if src, ok := chainProgram([]string{cell}, k, 1); ok {
